@@ -100,7 +100,23 @@ def _via_config(job):
             finally:
                 os.chdir(cwd)
         if not pats or len(pats) != 1:
-            out.append(dict(unclassified="config not loaded / not exactly one pattern for f.txt", pat=pat, kind="via-" + syntax))
+            # a failure only counts against bumpver if the pattern itself compiles and - for TOML - the third-party reader can read the text at all
+            excuse = None
+            try:
+                from bumpver import v2patterns as _v2p
+                _v2p.compile_pattern(pat)
+            except Exception as ex:  # pylint:disable=broad-except
+                excuse = "the pattern does not compile at library level either (%s)" % type(ex).__name__
+            if excuse is None and syntax == "toml":
+                try:
+                    import toml as _toml
+                    _toml.loads(text)
+                except Exception as ex:  # pylint:disable=broad-except
+                    excuse = "the toml library cannot read this text (%s)" % type(ex).__name__
+            if excuse:
+                out.append(dict(unclassified=excuse, pat=pat, kind="via-" + syntax))
+                continue
+            out.append(dict(loadfail="the config loader did not hand on exactly one pattern for f.txt (%s)" % ("config rejected" if pats is None else "%d patterns" % len(pats)), pat=pat, kind="via-" + syntax))
             continue
         for line in lines:
             m = pats[0].regexp.search(line)
@@ -213,15 +229,19 @@ def run(ctx):
     # a sample of the wrapped patterns once more through the config loaders (INI syntax cannot express every literal: blanks at the ends, a leading # or ;)
     cjobs = []
     wrapped = [b for job in jobs for b in job if b[0] == "wrapped"]
-    for k, (_kind, pat, lines) in enumerate(wrapped[:ctx.pick(600, 8000)]):
+    nw = ctx.pick(600, 8000)
+    for k, (_kind, pat, lines) in enumerate(wrapped[:nw // 2] + wrapped[-(nw // 2):]):          # short exhaustive literals and long random ones
         quoted = ['"' + pat + '"', "'" + pat + "'"][k % 2] if k % 4 == 0 else pat       # a pattern wholly enclosed in quotes keeps them: they are literal text
         qlines = [ln if quoted == pat else quoted[0] + ln + quoted[0] for ln in lines] + ([lines[0]] if quoted != pat else [])
         syntax = "cfg" if k % 2 == 0 else "toml"
-        if syntax == "cfg" and (quoted != quoted.strip() or quoted[:1] in "#;" or "\n" in quoted or "%" in quoted):
+        if syntax == "cfg" and (quoted != quoted.strip() or quoted[:1] in "#;" or "\n" in quoted):        # (a % is just a % in this INI dialect)
             syntax = "toml"
         cjobs.append((syntax, quoted, qlines))
     for part in drive.pmap(_via_config, [cjobs[i:i + 40] for i in range(0, len(cjobs), 40)], hooks=False):
         events += part
+    for e in [e for e in events if "loadfail" in e]:
+        ctx.violation(dict(clause="search:config-loader-rejects-or-alters-the-pattern", kind=e["kind"], percent="%" in e["pat"]), case=dict(pattern=e["pat"], what=e["loadfail"]))
+    events = [e for e in events if "loadfail" not in e]
     uncl = [e for e in events if "unclassified" in e]
     events = [e for e in events if "unclassified" not in e]
     ctx.count("unclassified_patterns", len(uncl))
